@@ -72,7 +72,10 @@ Section Switch.
            (f (r_duration r)) (f (r_time r)) (r_mode r).
 
   (* Machine._switch_unit_mode; a missing table entry is a KeyError in Python: the model
-     leaves the registers alone and the correspondence runs would show the difference *)
+     leaves the registers alone and the correspondence runs would show the difference.
+     The time register is a number here; a time-of-day pattern in it (`time at ...`) is not
+     a number and is outside this model -- both accepted texts of the method (with and without
+     the isinstance(..., TimePattern) guard) do the same on numbers. *)
   Definition g_switch (r : regs T) (to : unit_mode) : regs T :=
     let from := r_mode r in
     if unit_mode_eqb from to then r
